@@ -39,9 +39,9 @@ class C18(Property):
         "theorems are about the Lean model; model = code is checked on the generated operation sequences of this run (bit-for-bit)",
         "well-formed buffers (the four Bezier scratch vectors have equal lengths) - true of CurveBuffers::default() and of every buffer the public API can produce",
     ]
-    nontrivial_rule = ("operation sequences {owned, borrowed, path.curve(), curve_with_bufs, borrowed_curve, set points, set length, clear} over pools of "
+    nontrivial_rule = ("operation sequences {owned, borrowed, path.curve(), curve_with_bufs, borrowed_curve, set points, set length, clear, clone_from a fresh / a cached path} over pools of "
                        "control-point lists incl. empty, single-point, multi-segment, Bezier of different degrees, sharing one buffer set (the former F7 shapes - empty list after a borrowed computation - are part of the exhaustive alphabet and must pass); exhaustive up to length 3 "
-                       "over a 15-op alphabet, random up to length 30; non-trivial = at least two computations")
+                       "over a 17-op alphabet, random up to length 30; non-trivial = at least two computations")
 
     def gen(self, rng, tier):
         cases = []
@@ -53,7 +53,7 @@ class C18(Property):
             return " | ".join(" ".join(g.pt(x, y, t) for x, y, t in p) for p in pool)
 
         L = g.bits64(57.5)
-        alpha = ["o0:-", "o1:" + L, "o2:-", "b0:" + L, "b1:-", "b2:-", "c", "w", "r", "m0", "m1", "m2", "l-", "l" + L, "x"]
+        alpha = ["o0:-", "o1:" + L, "o2:-", "b0:" + L, "b1:-", "b2:-", "c", "w", "r", "m0", "m1", "m2", "l-", "l" + L, "x", "k1:" + L, "K0:-"]
         kmax = 3 if tier == "quick" else 4
         for k in range(1, kmax + 1):
             for combo in itertools.product(alpha, repeat=k):
@@ -86,8 +86,10 @@ class C18(Property):
                     ops.append(rng.choice("cwr"))
                 elif r < 0.87:
                     ops.append(f"m{i}")
-                elif r < 0.95:
+                elif r < 0.93:
                     ops.append("l" + Lt)
+                elif r < 0.97:
+                    ops.append(f"{rng.choice('kK')}{i}:{Lt}")
                 else:
                     ops.append("x")
             cases.append(Case(f"curveseq {m} {pool_str(pl)} # " + " ".join(ops), tags=("random",)))
